@@ -233,7 +233,7 @@ def has_bool_num_confusion(a, b):
     return bool(diffs) and all(diffs)
 
 
-def check_pair(drv, da, db, kind, values, out, stats, built=None):
+def check_pair(drv, da, db, kind, values, out, stats, built=None, extra=None):
     try:
         a, b = built if built is not None else (dsl.build(da), dsl.build(db))
     except Exception as exc:  # noqa: BLE001
@@ -244,7 +244,7 @@ def check_pair(drv, da, db, kind, values, out, stats, built=None):
         da, db = core.dump_elem(a), core.dump_elem(b)
     real = {"eq": bool(a == b), "eq_rev": bool(b == a)}
     rep = drv.ask({"op": "elem_eq", "a": da, "b": db})
-    case = {"a": da, "b": db, "mutation": kind}
+    case = {"a": da, "b": db, "mutation": kind, **(extra or {})}
     out.note_case(case, kind != "identical")
     stats["pairs-" + kind] = stats.get("pairs-" + kind, 0) + 1
     stats["equal" if real["eq"] else "unequal"] = stats.get("equal" if real["eq"] else "unequal", 0) + 1
@@ -280,6 +280,37 @@ def check_pair(drv, da, db, kind, values, out, stats, built=None):
         stats["oracle-fail-serialize"] = stats.get("oracle-fail-serialize", 0) + 1
 
 
+def inherited_table():
+    from statham.schema.elements import Integer as _Int, String as _Str
+    return [("maxProperties", 2, 4), ("minProperties", 0, 2), ("required", ["a"], ["a", "b"]), ("const", {"a": 1}, {"a": 2}),
+            ("enum", [{"a": 1}], [{"a": 1}, {"b": 2}]), ("default", {"a": 1}, {"a": 2}),
+            ("patternProperties", {"^x": _Str()}, {"^x": _Int()}), ("propertyNames", _Str(maxLength=1), _Str(maxLength=3)),
+            ("dependencies", {"a": ["b"]}, {"a": ["c"]}), ("description", "one", "two"), ("additionalProperties", False, True)]
+
+
+def build_inherited(idx, variant):
+    """two classes `Item` with one body; keyword `idx` arrives from an intermediate base (variant 0), from two levels up
+    (variant 1), or only one of them has it (variant 2)"""
+    from statham.schema.elements import Integer as _Int, Object as _Obj, String as _Str
+    from statham.schema.elements.meta import ObjectClassDict as _OCD, ObjectMeta as _OM
+    from statham.schema.property import Property as _P
+    kwname, v1, v2 = inherited_table()[idx]
+    base_a = _OM("Narrow", (_Obj,), _OCD(), **{kwname: v1})
+    base_b = _OM("Wide", (_Obj,), _OCD(), **({kwname: v2} if variant != 2 else {}))
+    if variant == 1:
+        base_a = _OM("NarrowMid", (base_a,), _OCD())
+        base_b = _OM("WideMid", (base_b,), _OCD())
+    ca, cb = _OCD(), _OCD()
+    for cd in (ca, cb):
+        cd["a"] = _P(_Int())
+        cd["b"] = _P(_Str())
+    return _OM("Item", (base_a,), ca), _OM("Item", (base_b,), cb)
+
+
+INHERITED_VALUES = [{}, {"a": 1}, {"a": 2}, {"a": 1, "b": "s"}, {"a": 1, "b": "s", "c": 3}, {"a": 1, "b": "s", "c": 3, "d": 4}, {"x1": "s"}, {"x1": 1},
+                    {"b": 2}, {"abc": 1}, {"a": 1, "c": 1}]
+
+
 def _plain(x):
     if isinstance(x, dict):
         return {k: _plain(v) for k, v in x.items()}
@@ -293,7 +324,9 @@ def run(ctx, scale=1.0):
     out = Outcome()
     out.rule = ("pairs of DSL-built trees: (tree, independent rebuild) and (tree, single-point mutation: numeric keyword, flag, literal, "
                 "bool/number lookalike inside a literal, property required/source, element class, property order, enum order, description, "
-                "added sub-element, explicit required list); 6 values per equal pair; a case is one pair; non-trivial = mutated; distinct by SHA-256")
+                "added sub-element, explicit required list); pairs sharing one element object; pairs of classes with one body whose keywords "
+                "arrive by inheritance (11 keywords x same / deeper / absent); used-then-reconfigured vs fresh; 6+ values per equal pair; "
+                "a case is one pair; non-trivial = mutated; distinct by SHA-256")
     stats = {}
     drv = core.Driver()
     try:
@@ -324,6 +357,16 @@ def run(ctx, scale=1.0):
                 a, b = _OM("Holder", (_Obj,), ca), _OM("Holder", (_Obj,), cb)
             check_pair(drv, core.dump_elem(a), core.dump_elem(b), "shared-element-propflag", [{}, {"p": 1}, {"src": 1}, {"other": "x"}, {"p": None}],
                        out, stats, built=(a, b))
+        # classes whose keywords arrive by inheritance from an intermediate base: same body, different inherited keyword
+        n_inh = len(inherited_table())
+        for i in range(int(n_inh * 3 * scale)):
+            idx, variant = i % n_inh, (i // n_inh) % 3
+            a, b = build_inherited(idx, variant)
+            try:
+                da_, db_ = core.dump_elem(a), core.dump_elem(b)
+            except (TypeError, ValueError, RecursionError):
+                continue
+            check_pair(drv, da_, db_, "inherited-keyword", INHERITED_VALUES + [core.NP], out, stats, built=(a, b), extra={"inherited": [idx, variant]})
         # an element that has been used and is then reconfigured vs a fresh element with the final configuration
         from harness.props.c13 import reconfig_ops
         for i in range(int(60 * scale)):
@@ -365,7 +408,11 @@ def _replay_case(case):
     drv = core.Driver()
     try:
         vals = [dsl.dec_val(case["value"])] if "value" in case else [True, 1, 1.0, 0, False, [True], [1]]
-        check_pair(drv, case["a"], case["b"], case.get("mutation", "replay"), vals, out, stats)
+        built = None
+        if "inherited" in case:
+            built = build_inherited(*case["inherited"])
+            vals = vals + INHERITED_VALUES
+        check_pair(drv, case["a"], case["b"], case.get("mutation", "replay"), vals, out, stats, built=built)
     finally:
         drv.close()
     return out
